@@ -12,6 +12,7 @@ import Golib.Model.C15Parse
 import Golib.Model.C15Hex
 import Golib.Model.C15IP
 import Golib.Model.C15B64
+import Golib.Model.C15Stream
 
 namespace Golib.C15
 open Golib.Proto
@@ -29,9 +30,25 @@ def hmacAlgos : List String :=
   ["md5", "sha1", "sha224", "sha256", "sha384", "sha512", "sha512_224", "sha512_256"]
 
 /-- The reader shapes the `…Stream` helpers are fed with (see `go/props/c15/c15.go`). -/
-def streamNames : List String := ["st", "st1", "stw", "ste", "ste4", "sto", "sth", "sts", "stz"]
+def streamNames : List String :=
+  ["st", "st1", "stw", "ste", "ste4", "sto", "sth", "sts", "stz", "stb", "stbe"]
 
 def b64Encs : List String := ["std", "url", "rawstd", "rawurl"]
+
+/-- One `st…=` field: the reader shape as a script through the copy-loop model
+(`Golib.C15.streamHelper`); the digest function is "the stdlib digest of the whole input carried
+by the line", so the field is the hex digest only if the loop wrote exactly the input. -/
+def streamField (stream : Bool) (shape : String) (inp dig : List Nat) : String :=
+  if !stream then "none" else
+  match shapeScript shape inp with
+  | none => "bad-shape"
+  | some sc =>
+    match streamHelper (fun w => if w = inp then dig else []) sc with
+    | .value (some o) => if o.isEmpty then "model-wrote-other-bytes" else hex o
+    | .value none => "panic"
+    | .error => "err"
+    | .panic => "panic"
+    | .pending => "model-pending"
 
 def rep (labels : List String) (v : String) : String :=
   " ".intercalate (labels.map fun l => l ++ "=" ++ v)
@@ -79,12 +96,13 @@ def runOp (ts : List String) : String :=
     | none => "bad-op"
   | ["dg", algo, inp, dig] =>
     match digestAlgos.lookup algo, unhex inp, unhex dig with
-    | some stream, some _, some dig =>
+    | some stream, some inp, some dig =>
       match hexEncode? dig with
       | none => "panic"
       | some o =>
         rep ["s", "b", "ts", "tss"] (hex o) ++ " " ++
-          rep streamNames (if stream then hex o else "none") ++ " mod=false"
+          " ".intercalate (streamNames.map fun nm => nm ++ "=" ++ streamField stream nm inp dig) ++
+          " mod=false"
     | _, _, _ => "bad-op"
   | ["dgh", algo, mode, k, inp, dig] =>
     -- history: a failed stream call (reader error / panic after `k` bytes) leaves nothing behind:
@@ -93,13 +111,15 @@ def runOp (ts : List String) : String :=
     -- other helpers are unaffected.
     match digestAlgos.lookup algo, ["errafter", "witherr", "timeout", "panic"].contains mode,
         k.toNat?, unhex inp, unhex dig with
-    | some true, true, some k, some _, some dig =>
+    | some true, true, some k, some inp, some dig =>
       if k > 65536 then "bad-op" else
-      match hexEncode? dig with
-      | none => "panic"
-      | some o =>
-        "fail=" ++ (if mode = "panic" then "panic" else "err") ++ " st=" ++ hex o ++
-          " rounds=same others=ok"
+      -- the failing call through the copy-loop model (the leftover bytes are irrelevant to the
+      -- outcome: a script of k placeholder bytes), then the valid call in two chunks
+      let failed := match failScript mode (List.replicate k 0) with
+        | some sc => (match streamHelper (fun _ => dig) sc with
+            | .error => "err" | .panic => "panic" | .value _ => "nil" | .pending => "pending")
+        | none => "bad-mode"
+      "fail=" ++ failed ++ " st=" ++ streamField true "stz" inp dig ++ " rounds=same others=ok"
     | _, _, _, _, _ => "bad-op"
   | ["dgs", algo, inp, d0, d1, d2, d3, d4] =>
     -- hidden input: a seekable reader that was already advanced by k bytes is, for an `io.Reader`
